@@ -160,7 +160,7 @@ def electrostatics_system(mesh):
     return K, f, fixed, cond
 
 
-def check_solution(K, f, V, fixed, cond, circprops, reported=None, tol=1e-6, K_stiff=None):
+def check_solution(K, f, V, fixed, cond, circprops, reported=None, tol=1e-6, K_stiff=None, f_abs=None):
     """-> list of findings (strings + data).  Scale-aware residual test at the free nodes, prescribed values,
     equipotential floating conductors with their prescribed charge, reported conductor charges."""
     out = []
@@ -170,7 +170,10 @@ def check_solution(K, f, V, fixed, cond, circprops, reported=None, tol=1e-6, K_s
         bad = int(np.argmax(~np.isfinite(V))) if not np.all(np.isfinite(V)) else int(np.argmax(~np.isfinite(r)))
         return [("non-finite", "the written solution (or the system it is checked against) is not finite at node %d: value %s" % (bad, V[bad]), dict(node=bad))], \
             dict(global_residual=float("nan"), worst_row=None, trivial=False, charges={})
-    absrow = abs(K) @ np.abs(V) + np.abs(f)
+    # row scale: the magnitudes of the terms that meet in the row; `f_abs` = the sources BEFORE they cancel (a circuit whose voltage
+    # offsets the block's own current density leaves a net source many orders below either part, and the solver converges relative
+    # to the parts)
+    absrow = abs(K) @ np.abs(V) + (np.abs(f) if f_abs is None else np.maximum(np.abs(f), f_abs))
     floating = {i: c for i, c in cond.items() if circprops[c].get("type", 1) == 0}
     free = [i for i in range(n) if i not in fixed and i not in floating]
     # excitation scale of the problem: prescribed values, sources, conductor charges
@@ -477,7 +480,7 @@ def harmonic_mu(mat, w):
     return out[0], out[1]
 
 
-def harmonic_system(mesh, records, prox=None):
+def harmonic_system(mesh, records, prox=None, f_abs_out=None):
     """time-harmonic planar magnetics, linear unlaminated materials: (K + j w sigma M) A = J_block + J_applied with the
     per-label applied current density taken from the records written with the solution (case 0: -sigma*dV, case 1: J)"""
     prob = mesh.prob
@@ -506,6 +509,11 @@ def harmonic_system(mesh, records, prox=None):
         case, val = records[l]
         Jadd = (-sig * val) if case == 0 else val * 1e6
         J = (mat.get("J_re", 0.0) + 1j * mat.get("J_im", 0.0)) * 1e6 + Jadd
+        if f_abs_out is not None:
+            if not f_abs_out:
+                f_abs_out.append(np.zeros(n))
+            for i in range(3):
+                f_abs_out[0][idx[i]] += (abs((mat.get("J_re", 0.0) + 1j * mat.get("J_im", 0.0)) * 1e6) + abs(Jadd)) * a / 3
         for i in range(3):
             f[idx[i]] += J * a / 3
             for j in range(3):
